@@ -3,6 +3,7 @@
   prefix-mask function the theorems talk about.  Re-proved by `decide` on every run; a changed
   table entry breaks this file.
 -/
+import Glb.Generated.StatusFilter
 import Glb.Proofs.Filter
 
 namespace Glb.Tie.Filter
@@ -16,5 +17,8 @@ theorem mask_table : ∀ i ∈ List.range 32,
 theorem maskOf_is_prefixMask : ∀ n ∈ List.range' 1 32, maskOf n = prefixMask n := maskTable
 
 theorem listSize_pos : 0 < Generated.listSize := by decide
+
+/-- the extractor of this area recognised the source as it is on this run (a refusal removes `ok`) -/
+theorem extractor_ok : Glb.Generated.StatusFilter.ok = () := rfl
 
 end Glb.Tie.Filter
